@@ -42,7 +42,7 @@ class Fn:
         if bb is None:
             return self.span
         t = self.blocks[bb]["term"]
-        return "%s:%s" % (self.file, t.get("line", "?"))
+        return "%s:%s" % (t.get("file", self.file), t.get("line", "?"))
 
     def local_name(self, l):
         return self.locals[l].get("name")
@@ -108,8 +108,16 @@ def callee_full(t, resolved=True):
     return c["full"]
 
 
+# crate-internal functions that rules and spec tables refer to by name: never treated as anonymous helpers
+KNOWN_INTERNAL = {
+    "common::read_to_value", "util::cbor_type_error",
+    "header::Header::from_cbor_value_depth", "header::ProtectedHeader::from_cbor_bstr_depth",
+    "sign::CoseSignature::from_cbor_value_depth",
+}
+
+
 class Program:
-    def __init__(self, path, expect_nonce=None):
+    def __init__(self, path, expect_nonce=None, inline=True):
         if not os.path.exists(path):
             raise FactsError("fact file %s missing (driver did not run)" % path)
         with open(path) as f:
@@ -124,8 +132,12 @@ class Program:
         self.impls = self.d["impls"]
         self.instances = self.d["instances"]
         self.enums = {k: {int(d): n for d, n in v} for k, v in self.d.get("enums", {}).items()}
-        self.no_inline = _spec_functions()
+        self.no_inline = _spec_functions() | KNOWN_INTERNAL
         self._helper_memo = {}
+        self.fully_inlined = set()
+        if inline:
+            from . import inline as _inline
+            _inline.inline_program(self)
 
     # ---- crate-private helper functions -----------------------------------------------------------------
     def is_private_helper(self, key):
@@ -136,8 +148,7 @@ class Program:
             return False
         if key in self.no_inline:
             return False
-        vis = f.d.get("vis", "")
-        return vis.startswith("Restricted(") and "DefId(0:0 " not in vis
+        return not f.is_pub and f.d.get("vis", "").startswith("Restricted(")
 
     # ---- lookup helpers -------------------------------------------------
     def fn(self, key):
